@@ -360,6 +360,23 @@ func checkC12(c *Ctx) {
 					r.Check(okI && okS, "C12.expiry", "own-entry:"+fname(e.Caller), c.pos(in), "the sweep passes the expired entry's own Id and Sender", "the expiry sweep does not pass the expired entry's own Id and Sender to the refund")
 					continue
 				}
+				// collect-then-refund: the entry passed is drawn from a local slice all of whose appends are guarded
+				if okC, det := c.collectedUnder(e.Caller, e.Site, expired); okC {
+					nSweep++
+					okI, okS := false, false
+					for _, a := range e.Site.Common().Args {
+						la := p.Leaves(a, ana.PVOpt{})
+						if la.HasField("SendToExternal.Id") {
+							okI = true
+						}
+						if la.HasField("SendToExternal.Sender") {
+							okS = true
+						}
+					}
+					r.Ok("C12.expiry", "guard:"+fname(e.Caller), c.pos(in), "the sweep refunds only entries collected under CreatedAt+OutgoingTxTimeout before BlockTime ("+det+")")
+					r.Check(okI && okS, "C12.expiry", "own-entry:"+fname(e.Caller), c.pos(in), "the sweep passes the expired entry's own Id and Sender", "the expiry sweep does not pass the expired entry's own Id and Sender to the refund")
+					continue
+				}
 				// not guarded here: go further up, unless this is a root
 				if isRoot(e.Caller, roots.Block) || len(p.Entries(e.Caller)) == 0 {
 					r.Bad("C12.expiry", "guard:"+fname(e.Caller), c.pos(in), "block processing reaches the refund without the expiry test (CreatedAt + OutgoingTxTimeout before BlockTime)")
@@ -378,4 +395,82 @@ func checkC12(c *Ctx) {
 			r.Undecided("C12.expiry", fname(f), "-", "no guarded expiry sweep call found")
 		}
 	}
+}
+
+// collectedUnder: every entry-typed argument of the call is an element of one local slice, and every
+// append into that slice (in the function or its closures) is guarded by the atom.
+func (c *Ctx) collectedUnder(f *ssa.Function, site ssa.CallInstruction, atom ana.Atom) (bool, string) {
+	var slice ssa.Value
+	for _, a := range site.Common().Args {
+		root, path := rootAndPath(a)
+		if path == "" {
+			continue
+		}
+		ld, ok := root.(*ssa.UnOp)
+		if !ok {
+			continue
+		}
+		ia, ok := ld.X.(*ssa.IndexAddr)
+		if !ok || !fullRange(ia) {
+			continue
+		}
+		if slice != nil && slice != ia.X {
+			return false, ""
+		}
+		slice = ia.X
+	}
+	if slice == nil {
+		return false, ""
+	}
+	// the variable behind the slice value
+	var variable *ssa.Alloc
+	if ld, ok := slice.(*ssa.UnOp); ok {
+		variable, _ = ld.X.(*ssa.Alloc)
+	}
+	if variable == nil {
+		return false, ""
+	}
+	n := 0
+	okAll := true
+	checkStore := func(st *ssa.Store) {
+		if ana.IsNilConst(st.Val) {
+			return
+		}
+		call, isC := st.Val.(*ssa.Call)
+		if !isC {
+			okAll = false
+			return
+		}
+		if b, isB := call.Call.Value.(*ssa.Builtin); !isB || b.Name() != "append" {
+			okAll = false
+			return
+		}
+		n++
+		if !ana.Guarded(st, atom) {
+			okAll = false
+		}
+	}
+	for _, ref := range *variable.Referrers() {
+		switch x := ref.(type) {
+		case *ssa.Store:
+			if x.Addr == ssa.Value(variable) {
+				checkStore(x)
+			}
+		case *ssa.MakeClosure:
+			fn, _ := x.Fn.(*ssa.Function)
+			if fn == nil {
+				continue
+			}
+			for i, b := range x.Bindings {
+				if b == ssa.Value(variable) && i < len(fn.FreeVars) {
+					for _, r2 := range *fn.FreeVars[i].Referrers() {
+						if st, ok := r2.(*ssa.Store); ok && st.Addr == ssa.Value(fn.FreeVars[i]) {
+							checkStore(st)
+						}
+					}
+				}
+			}
+		}
+	}
+	return okAll && n > 0, sprintf("%d guarded append(s) into %s", n, variable.Comment)
 }
